@@ -13,6 +13,7 @@ import (
 	"fmt"
 	"os"
 	"path/filepath"
+	"runtime/debug"
 	"sort"
 	"strings"
 
@@ -135,7 +136,7 @@ func main() {
 			continue
 		}
 		rec := o.recorder(sc.group)
-		if err := sc.run(rec); err != nil {
+		if err := guarded(rec, sc.name, sc.run); err != nil {
 			fatal(fmt.Errorf("scenario %s: %w", sc.name, err))
 		}
 		ran++
@@ -159,4 +160,24 @@ type scenario struct {
 	name  string
 	group string // trace-file group: preset + fork schedule (one P per file)
 	run   func(rec *beaconrec.Recorder) error
+}
+
+// guarded runs one scenario.  A panic raised inside zrnt's frames while the harness produces / prepares the
+// chain (pre-state advance, state-root dry run, oracle derivation on the shadow copy) ends the history with a
+// Crash event - a violation, the model considers the history valid -; a panic of the harness itself still
+// kills the recorder (exit 2, infrastructure).
+func guarded(rec *beaconrec.Recorder, name string, run func(*beaconrec.Recorder) error) (err error) {
+	defer func() {
+		if p := recover(); p != nil {
+			stack := debug.Stack()
+			if _, _, zrnt := beaconrec.ClassifyStack(stack); zrnt && rec.Events > 0 {
+				fmt.Fprintf(os.Stderr, "note: %s: zrnt panicked outside a recorded call: %v\n", name, p)
+				err = rec.Crash(name, p, stack)
+				return
+			}
+			fmt.Fprintf(os.Stderr, "harness panic in %s: %v\n%s\n", name, p, stack)
+			os.Exit(2)
+		}
+	}()
+	return run(rec)
 }
